@@ -431,3 +431,16 @@ package stake
 //@   loop 0: modifies elems(ret)
 //@   loop 0: invariant totalPower == vtotal(rangeindex) && len(ret) == rangeindex + 1
 //@   loop 0: invariant (arr(ret) == 0 && cap(ret) == 0) || loopfresh(arr(ret))
+
+// ---- commit (C01, C07): the three ledgers are committed, their versions agree, and at a reward-epoch boundary the
+// hash of the reward ledger committed NOW is both persisted and folded into the controller hash
+//@ func (ctrler *StakeCtrler) Commit()
+//@   requires ctrler != nil && ctrler.delegateeLedger != nil && ctrler.frozenLedger != nil && ctrler.rewardLedger != nil && ctrler.rwdHashDB != nil && ctrler.rwdLedgUpInterval > 0
+//@   modifies everything
+//@   assert@call(PutLastRewardHash,0): $arg1 == h2 && v0 == v1 && v1 == v2                                    [C01]
+//@   assert@store(StakeCtrler.lastRwdHash,0): $target == ctrler && $value == h2                                [C01]
+
+// genesis loading: no claim (frame only), so that callers are checked against this and not against the body
+//@ func (ctrler *StakeCtrler) InitLedger(req)
+//@   trusted
+//@   modifies everything
